@@ -801,6 +801,64 @@ pub fn c10_cases(rng: &mut Rng, tier: &str) -> (Vec<Case>, bool) {
         }
         cases.push(case_from(w, vec![format!("transcript-eq {}-{} {}-{}", ranges[0].0, ranges[0].1, ranges[1].0, ranges[1].1), "err-then-idle".into()], "run-after-a-run-that-hit-a-cap".into(), true, prog.join(" | ")));
     }
+    // an INPUT with a LIST of targets (not part of this dialect: the reply ends in a syntax error, or - should lists ever be
+    // taken - in a request for the rest) answered in part and abandoned: the next RUN asks its own questions and gets its own
+    // answers, as in a fresh interpreter
+    for stmt in ["INPUT A, B$", "INPUT A$, B, C", "INPUT P(1), Q", "INPUT A"] {
+        for first in ["1", "\"s\"", "1,2", "7,x,9,extra", ""] {
+            for scratch in [false, true] {
+                let lines = ["10 INPUT X : INPUT Y$ : PRINT X; Y$", "20 INPUT Z : PRINT Z"];
+                let mut w = Walk::new(false, false);
+                for l in lines.iter() {
+                    w.start(l);
+                }
+                if scratch {
+                    w.start(&format!("65000 {}", stmt));
+                    w.start("GOTO 65000");
+                } else {
+                    w.start(stmt);
+                }
+                for step in 0..6 {
+                    match w.state().as_str() {
+                        "Running" => {
+                            w.op("cont");
+                        }
+                        "AwaitingInput" if step < 4 => {
+                            w.reply(first);
+                        }
+                        "AwaitingInput" => {
+                            w.op("break");
+                        }
+                        _ => break,
+                    }
+                }
+                if w.state() != "Idle" {
+                    w.op("break");
+                }
+                w.op("take");
+                let a = w.ops.len();
+                w.start("RUN");
+                let mut nr = 0;
+                w.drive(&["5".to_string(), "z".to_string(), "6".to_string()], &mut nr, 40, false);
+                w.state();
+                let a2 = w.last();
+                w.op("new 0 0");
+                for l in lines.iter() {
+                    w.start(l);
+                }
+                if scratch {
+                    w.start(&format!("65000 {}", stmt));
+                }
+                let b = w.ops.len();
+                w.start("RUN");
+                let mut nr = 0;
+                w.drive(&["5".to_string(), "z".to_string(), "6".to_string()], &mut nr, 40, false);
+                w.state();
+                let b2 = w.last();
+                cases.push(case_from(w, vec![format!("transcript-eq {}-{} {}-{}", a, a2, b, b2), "err-then-idle".into()], "half-answered-list-then-run".into(), true, format!("{} <- {:?} ({}) || RUN", stmt, first, if scratch { "from a scratch line" } else { "at the prompt" })));
+            }
+        }
+    }
     // a long history of FAILED lines of every kind (each failure repeated 1..40 times), then RUN: as in a fresh interpreter -
     // no failure leaves anything behind that counts against a later run
     let failing: &[&str] = &["PRINT FNA(1/0)", "PRINT FNA(\"X\")", "PRINT FNA(1,2)", "PRINT FNA(1", "PRINT FNA()", "PRINT FNB(FNA(1/0))", "X = 1/0", "GOSUB 99999", "NEXT", "RETURN", "DIM Z9(-1)",
